@@ -328,7 +328,8 @@ def run_once(spec):
                 est.fit(n_splits=spec['prefit'], n_partitions=1, random_state=spec['rs'] // 2)
                 rec = Recorder()
                 REC[0] = rec
-            est.fit(n_splits=spec['k'], n_partitions=spec['nparts'], random_state=spec['rs'])
+            # a seed read from an array / a pandas column is a numpy integer, not a python int
+            est.fit(n_splits=spec['k'], n_partitions=spec['nparts'], random_state=(np.int64(spec['rs']) if spec.get('np_seed') else spec['rs']))
             vec = est.risk_difference_vector if spec['outcome'] == 'binary' else est.ace_vector
             out['estimates'] = [float(v) for v in vec]
             out['point'] = float(est.risk_difference if spec['outcome'] == 'binary' else est.ace)
@@ -433,7 +434,8 @@ def gen_specs(ctx):
         kmin = 3 if is_double(cls) else 2
         others = [j for j in range(kmin, 7) if j != k and n // j >= (6 if s['learner'] == 'sl' else 1)]
         s['prefit'] = rng.choice(others) if others and rng.random() < 0.3 else None
-        s['transform'] = rng.choice([None, None, None, 'center'])     # (standardize() divides by a part's sd, which is 0 for a constant part)
+        s['transform'] = rng.choice([None, None, None, 'center'])
+        s['np_seed'] = rng.random() < 0.4     # (standardize() divides by a part's sd, which is 0 for a constant part)
         s.update(kw)
         return s
     for k in range(2, 7):
@@ -478,6 +480,7 @@ def check_specs(ctx, specs, fails):
         ctx.count('learner:' + ('predict_proba' if spec['proba'] else 'predict'))
         ctx.count('learner-kind:' + spec.get('learner', 'plain'))
         ctx.count('index:' + spec['index'])
+        ctx.count('random_state type:' + ('numpy.int64' if spec.get('np_seed') else 'int'))
         ctx.count('earlier fit on the same object: ' + ('none' if not spec.get('prefit') else ('fewer splits' if spec['prefit'] < spec['k'] else 'more splits')))
         ctx.count('incomplete_rows=%d' % spec['nmiss'])
         size = spec['n'] * 10 + spec['k']
